@@ -139,6 +139,12 @@ func (g *Generator) cookClient(typeName string) {
 						}
 					}
 
+					for _, p := range realPathParams {
+						if g.data.IsParamPtrMap[methodName][p] {
+							logx.Fatalf("method %s: the path parameter %s must not be a pointer", methodName, p)
+						}
+					}
+
 					if shoot.Contains(g.data.BodyHTTPMethods, httpMethod) {
 						if _, ok := g.data.BodyParamMap[methodName]; !ok {
 							logx.Fatalf("method %s (%s) needs a struct parameter as request body", methodName, httpMethod)
